@@ -320,12 +320,8 @@ Proof.
       destruct (rec st ds m fwd (S depth) j) as [ok st' ds'|st' ds'| |]; cbn [good] in Hchild; auto.
       * destruct Hchild as [E [D A]]. destruct ok.
         -- apply (good_trans N st st'); auto.
-        -- destruct (fwd && negb o); [exact A|].
-           apply (good_trans N st (with_env st' (s_env st))); cbn [with_env s_env s_aliases]; auto.
-           apply env_frame_refl.
-      * destruct (fwd && negb o); [exact Hchild|].
-        apply (good_trans N st (with_env st' (s_env st))); cbn [with_env s_env s_aliases]; auto.
-        apply env_frame_refl.
+        -- destruct (fwd && negb o); [cbn [good]; apply alias_frame_refl|]. now apply IH.
+      * destruct (fwd && negb o); [cbn [good]; apply alias_frame_refl|]. now apply IH.
     + destruct (exec_simple_ok H N name p fwd (APath ap var v d) st HNself Hp Ha) as [st' [E1 [E2 [E3 E4]]]];
         [discriminate|assumption|]. rewrite E1. apply (good_trans N st st'); auto.
     + destruct (exec_simple_ok H N name p fwd (ASet k v) st HNself Hp Ha) as [st' [E1 [E2 [E3 E4]]]];
